@@ -115,6 +115,9 @@ def run(tier):
     def witness(src):
         f = C.run_harness("exec", [("w", src)], ck.work + "/witness").get("w", ["missing"])
         if f[0].startswith("ok lints=[1142]") and "out=-128" in f[1]: return "false-lint:negated-bits"
+        if src.startswith("//wasm"):
+            g = C.run_harness("ir-wasm", [("w", src)], ck.work + "/witness").get("w", ["missing"])
+            if g[0].startswith("ok") and "1142" not in g[0] and "store i32 0, i32* %x" in C.unesc(g[1]).decode(errors="replace"): return "silently-altered:wasm-usize"
         return None
     ck.witness_runner = witness
     cases = int_cases(rng, 2 if tier == "quick" else 40)
@@ -201,6 +204,35 @@ def run(tier):
         if not (f[0].startswith("err") and code in f[0]):
             smism += 1; ck.violation("malformed-accepted:" + code, "malformed literal %s should be rejected with E%s, got %s" % (lit, code, f[0]), src)
     ck.log("characters/strings: %d programs, %d problems" % (len(ssrcs) + len(bsrcs), smism))
+    # literals in type position (array lengths, only in size-of expressions: nothing is allocated) and the
+    # range of usize on the 32-bit target: never silently altered
+    lens = [0, 1, 255, 65536, (1 << 31) - 1, (1 << 32) - 1, (1 << 63) + 1, (1 << 64) - 1, 1 << 64, (1 << 64) + 3, (1 << 64) + (1 << 32), 1 << 100, (1 << 127) + 7, (1 << 128) - 1]
+    lsrcs = [("n%d" % i, "fn main() -> u8\n{\n\tprint!(|:[%d]u8|, \"\\n\");\n\treturn: 0\n}\n" % v) for i, v in enumerate(lens)]
+    impl4 = C.run_harness("exec", lsrcs, ck.work + "/len", timeout=600)
+    lmism = 0
+    for (cid, src), v in zip(lsrcs, lens):
+        f = impl4.get(cid, ["missing"])
+        if f[0].startswith("ok"):
+            out = C.unesc(f[1].split(" out=", 1)[1].split(" stderr=")[0]).decode(errors="replace").strip() if " out=" in f[1] else "?"
+            if out != str(v):
+                lmism += 1; ck.violation("silently-altered:array-length", "the array length literal %d is accepted and becomes %s" % (v, out), src)
+        elif not (f[0].startswith("err codes=") or f[0].startswith("internal-error")):   # (the internal error beyond 2^32 elements is C10's D45)
+            ck.violation(C.failure_key(f[0]), "compiler failed: " + f[0][:200], src)
+    wvals = [0, 1, (1 << 31), (1 << 32) - 1, 1 << 32, (1 << 32) + 5, 1 << 63, (1 << 64) - 1]
+    wsrcs = [("u%d" % i, "fn main() -> u8\n{\n\tvar x: usize = %d;\n\tvar y: usize = x + 1;\n\treturn: 0\n}\n" % v) for i, v in enumerate(wvals)]
+    impl5 = C.run_harness("ir-wasm", wsrcs, ck.work + "/wasm", timeout=600)
+    for (cid, src), v in zip(wsrcs, wvals):
+        f = impl5.get(cid, ["missing"])
+        if not f[0].startswith("ok"):
+            if not f[0].startswith("err codes="): ck.violation(C.failure_key(f[0]), "compiler failed: " + f[0][:200], src)
+            continue
+        linted = "1142" in f[0]
+        stored = __import__("re").search(r"store i32 (-?\d+), i32\* %x", C.unesc(f[1]).decode(errors="replace"))
+        if (v >= (1 << 32)) != linted:
+            lmism += 1
+            ck.violation("silently-altered:wasm-usize" if not linted else "false-lint:wasm-usize",
+                         "wasm32 target: `var x: usize = %d` %s L1142; the value stored is %s" % (v, "raises" if linted else "does not raise", stored.group(1) if stored else "?"), src)
+    ck.log("array lengths and 32-bit usize: %d programs, %d problems" % (len(lsrcs) + len(wsrcs), lmism))
     if not proof_ok:
         ck.violation("tie-broken:proof", "Props/C09.v no longer checks", getattr(ck, "proof_output", "")[-2000:])
     ck.coverage.update(
